@@ -126,6 +126,28 @@ def step (s : DState) (toks : List String) : DState × String :=
         | some o, some A => s!"O{k} {A.length} {A.rank} {spaceTok A.space} a{(refs.idxOf o.ref)} {fl A.data.toList}"
         | _, _ => s!"O{k} dead"
       (s, " ".intercalate parts)
+  -- ---------------- C12 tabulated omega
+  | "fa.calc" :: rest =>
+      match splitBar rest with
+      | [_, v, k, kd] =>
+          let o : FromArr Float := ⟨hexs v, if k = ["none"] then none else some (hexs k)⟩
+          match o.calculate (hexs kd) with
+          | .ok r => (s, "ok " ++ fl r.toList)
+          | .error e => (s, errTok e)
+      | _ => (s, "bad-op")
+  | "ff.calc" :: variant :: r :: c :: rest =>
+      match splitBar rest with
+      | [_, d, kd] =>
+          let d := hexs d; let R := r.toNat!; let C := c.toNat!
+          let rows : Array (Array Float) := tab R fun i => tab C fun j => d[i * C + j]!
+          match (if variant = "shipped" then fromFileCalcShipped rows (hexs kd) else fromFileCalc rows (hexs kd)) with
+          | .ok r => (s, "ok " ++ fl r.toList)
+          | .error e => (s, errTok e)
+      | _ => (s, "bad-op")
+  | "allclose" :: rest =>
+      match splitBar rest with
+      | [_, a, b] => (s, toString (allclose (hexs a) (hexs b)))
+      | _ => (s, "bad-op")
   | _ => (s, "bad-op")
 
 partial def loop (h : IO.FS.Stream) (out : IO.FS.Stream) (s : DState) : IO Unit := do
